@@ -18,13 +18,10 @@ def serviceOf (s : String) : Option Proto :=
   else if s = "s.http.Serve" then some .http
   else none
 
-def parseReg (r : String) : Option (Proto × List Bytes) :=
-  match r.splitOn " -> " with
-  | [m, s] =>
-    match matcherStrings m, serviceOf s with
-    | some ss, some p => some (p, ss)
-    | _, _ => none
-  | _ => none
+def parseReg (r : String × String) : Option (Proto × List Bytes) :=
+  match matcherStrings r.1, serviceOf r.2 with
+  | some ss, some p => some (p, ss)
+  | _, _ => none
 
 /-- registrations in source order; `none` when the translator met a registration it does
     not understand (the obligations in Props/C19 then fail) -/
